@@ -189,7 +189,16 @@ def run_case(case):
             # narrowed claim (DESIGN C10): the accuracy bound with the solver's tolerance is judged only when the
             # solver reports convergence; a result returned with a non-convergence warning gets the weak checks
             # (and, for the higher-order method, the residual guard) only.
-            applicable = applicable and _reports_converged(mf, solver, A, r, cfg, eps)
+            conv = _reports_converged(mf, solver, A, r, cfg, eps)
+            # ... except where rounding cannot be the reason: with the rounding floor cond*n*u two orders below the tolerance
+            # and an ample iteration budget (>= 100) the accuracy clause is judged whatever the routine reports (on the
+            # unchanged tree every such call reports CONVERGED: counters region_judged / region_nonconverged)
+            in_region = cond * n * u * 100 < cfg.tolerance and cfg.max_iterations >= 100
+            if in_region:
+                counters["region_judged"] = counters.get("region_judged", 0) + 1
+                if not conv:
+                    counters["region_nonconverged"] = counters.get("region_nonconverged", 0) + 1
+            applicable = applicable and (conv or in_region)
         if applicable:
             ratio = err / bound
             counters["accuracy_checked"] += 1
